@@ -92,7 +92,7 @@ STEP_REQ = (
         "forall(j, 0, n, {ic}.aer_days_comp[j] >= 0)".format(ic=IC), "{ic}.aer_days >= 0".format(ic=IC),
         "{ic}.canopy_cover >= 0 and {ic}.canopy_cover_ns >= 0 and {ic}.cc0_adj >= 0 and {ic}.ccx_act_ns >= 0 and {ic}.ccx_w >= 0 and {ic}.ccx_w_ns >= 0 and {ic}.ccx_early_sen >= 0 and {ic}.t_early_sen >= 0".format(ic=IC),
         "0 <= {ic}.f_pol and {ic}.f_pol <= 1 and {ic}.biomass >= 0 and {ic}.biomass_ns >= 0".format(ic=IC),
-        "0 <= {ic}.pct_lag_phase and {ic}.pct_lag_phase <= 100".format(ic=IC), "{ic}.r_cor >= 0".format(ic=IC),
+        "0 <= {ic}.pct_lag_phase and {ic}.pct_lag_phase <= 100".format(ic=IC), "{ic}.r_cor >= 0 and {ic}.tr_ratio >= 0 and {ic}.z_root >= 0".format(ic=IC),
         "{ic}.canopy_cover <= 1 and {ic}.canopy_cover_ns <= 1 and {ic}.ccx_w <= 1 and {ic}.ccx_w_ns <= 1 and {ic}.ccx_act_ns <= 1".format(ic=IC),
         # season-crop related state (only meaningful once a season has started)
         "implies({sc} >= 0, 0 <= {ic}.HIfinal and {ic}.HIfinal <= {c}.HI0 and 0 <= {ic}.hi_ref and {ic}.hi_ref <= {c}.HI0)".format(sc=SC, ic=IC, c=CROP_S),
@@ -127,6 +127,8 @@ contract(TS + "run_single_timestep.py", "solution_single_time_step",
               % (_S("NewCond.th"), _S("init_cond.th"), SC, P)),
              ("C03.step_water_inv", W.WATER_INV("NewCond.th", P)),
              ("C03.step_ponding_nonneg", "NewCond.surface_storage >= 0"),
+             # state facts root_development starts from on the next day (inductive part of the step's own precondition)
+             ("C05.step_root_state_inductive", "NewCond.tr_ratio >= 0 and NewCond.z_root >= 0 and NewCond.r_cor >= 0"),
              # the ponding limit is that of the field management in force on this day (the crop's in season, the fallow one otherwise)
              ("C03.step_ponding_le_bund_in_force", "implies(NewCond.growing_season, NewCond.surface_storage <= ite(param_struct.FieldMngt.bunds and param_struct.FieldMngt.z_bund > 0.001, param_struct.FieldMngt.z_bund, 0)) and "
                                                    "implies(not NewCond.growing_season, NewCond.surface_storage <= ite(param_struct.FallowFieldMngt.bunds and param_struct.FallowFieldMngt.z_bund > 0.001, param_struct.FallowFieldMngt.z_bund, 0))"),
